@@ -73,6 +73,10 @@ pos("int a[2][%s];\nint after;\n", lambda d: ns(d).variables[0].type.array_of.si
 pos("void f(int p[%s]);\nint after;\n", lambda d: ns(d).functions[0].parameters[0].type.size)
 pos("enum E { A = %s, B = 2 };\nint after;\n", lambda d: ns(d).enums[0].values[0].value)
 pos("enum E { Z, A = %s };\nint after;\n", lambda d: ns(d).enums[0].values[1].value)
+pos("enum E { A = %s, B, C = 3, D };\nint after;\n", lambda d: ns(d).enums[0].values[0].value)
+pos("struct S { int m = %s, n; int after; };\n", lambda d: ns(d).classes[0].fields[0].value)
+pos("void f(int p = %s, int q);\nint after;\n", lambda d: ns(d).functions[0].parameters[0].default)
+pos("template <int N = %s, int M> struct S {};\nint after;\n", lambda d: ns(d).classes[0].class_decl.template.params[0].default, noangle_top=True)
 pos("enum class E : int { Z = 1, A = %s, };\nint after;\n", lambda d: ns(d).enums[0].values[1].value)
 pos("Tmpl<1 + %s> v;\nint after;\n", lambda d: seg0(ns(d).variables[0].type).specialization.args[0].arg, lambda t: ["1", "+"] + t, noangle_top=True)
 pos("Tmpl<int, (%s), char> v;\nint after;\n", lambda d: seg0(ns(d).variables[0].type).specialization.args[1].arg, lambda t: ["("] + t + [")"])
@@ -146,6 +150,23 @@ def run(ctx):
             base[tmpl] = d
         except (CxxParseError, AttributeError, IndexError, KeyError) as e:
             fails.append({"input": tmpl % "1", "diff": "position rejected with the value `1`: %s" % str(e)[:200]})
+    # positions written without an expression expose None, whatever their neighbours hold
+    none_cases = [
+        ("enum E { A = 1, B, C = 2, D };", lambda d: [v.value for v in ns(d).enums[0].values][1::2]),
+        ("int x = 1, y;", lambda d: [ns(d).variables[1].value]),
+        ("struct S { int a = 1; int b; int c{2}, d; };", lambda d: [ns(d).classes[0].fields[1].value, ns(d).classes[0].fields[3].value]),
+        ("void f(int a = 1, int b);", lambda d: [ns(d).functions[0].parameters[1].default]),
+        ("template <int N = 1, int M, typename T = int, typename U> struct S {};", lambda d: [p_.default for p_ in ns(d).classes[0].class_decl.template.params][1::2]),
+        ("void f() noexcept(true); void g();", lambda d: [ns(d).functions[1].noexcept, ns(d).functions[1].throw]),
+        ("int a[3]; int b[];", lambda d: [ns(d).variables[1].type.size]),
+    ]
+    for src, getn in none_cases:
+        try:
+            got = getn(parse_string(src))
+            if any(g is not None for g in got):
+                fails.append({"input": src, "diff": "a position without an expression exposes %r" % [toks_of(g) for g in got]})
+        except Exception as e:  # noqa
+            fails.append({"input": src, "diff": "position not found: %r" % e})
     for i in range(n):
         tmpl, get, wrap, line, noangle = P[i % len(P)]
         if tmpl not in base:
